@@ -1,3 +1,99 @@
-(* C20 — property theorems (under construction: Index/NoIndexPools.v) *)
-From Coq Require Import List ZArith.
+(* C20 — instances are isolated and pool-independent: the index-level theorems (Index/NoIndexPools.v).
+   Property theorems only.  Model: the life of one CRelNoIndex-backed index across a run of a parallel program
+   (update_indices, which re-creates the index in the run pool and inserts every row; then per SCC either
+   "take / Default total / Default new / loop { inserts into new; merge } / store total" or "freeze, take, put
+   back"), with the stored value's shard count (pool of construction or of an earlier run) independent of the run
+   pool's size c, arbitrary rayon thread indices and arbitrary orders of the atomic inserts. *)
+From Coq Require Import List ZArith Bool Permutation.
+From AV Require Import Index.MultiMap.
+From AV Require Import Index.IndexModel.
+From AV Require Import Index.IndexRefine.
+From AV Require Import Index.ConcIndex.
+From AV Require Import Index.NoIndexPools.
 Import ListNotations.
+Open Scope Z_scope.
+
+(* (1) a whole run, for EVERY stored value (any shard count, any content, frozen or not), every run pool size c, every
+   thread index of every insert, every order of the atomic inserts, every sequence of SCC visits: no panic, the index
+   ends with the run pool's shard count, and the rows readable from it (iter_all / index_get after freeze) are exactly
+   the rows inserted — all rows, nothing lost, nothing duplicated *)
+Theorem c20_noindex_no_loss : forall c rows vs (stored : cni),
+  exists f', run_index c rows vs stored = Ok f' /\
+    length (snd f') = Nat.max c 1 /\
+    Permutation (cni_abs f') (map snd rows ++ visits_rows vs) /\
+    cni_get (cni_freeze f') = Ok (Some (cni_abs f')).
+Proof. exact run_index_no_loss. Qed.
+
+Theorem c20_noindex_rows_once : forall c rows vs (stored : cni), NoDup (map snd rows ++ visits_rows vs) ->
+  exists f', run_index c rows vs stored = Ok f' /\ NoDup (cni_abs f') /\
+             forall r, In r (cni_abs f') <-> In r (map snd rows ++ visits_rows vs).
+Proof. exact run_index_rows_once. Qed.
+
+(* which shard-count combinations arise: update_indices replaces the stored value by one created in the run pool, and
+   total / new are created in the run pool: all four have max c 1 shards, whatever was stored *)
+Theorem c20_noindex_counts_equal : forall c rows (old : cni),
+  exists f, update_indices c rows old = Ok f /\
+    length (snd f) = length (snd (cni_default c)) /\ length (snd (cni_default c)) = Nat.max c 1.
+Proof. exact run_counts_equal. Qed.
+
+(* the SCC protocol alone is already exact for any taken value with between 1 and (run pool size) shards *)
+Theorem c20_noindex_scc_smaller_field : forall c rounds (field : cni), (1 <= length (snd field) <= Nat.max c 1)%nat ->
+  exists f', scc_dynamic c rounds field = Ok f' /\ fst f' = false /\ length (snd f') = Nat.max c 1 /\
+             Permutation (cni_abs f') (cni_abs field ++ map snd (concat rounds)).
+Proof. exact scc_dynamic_spec. Qed.
+
+(* without the reset at run start (the code before commit 949309d): still exact when the stored value has no more
+   shards than the run pool ... *)
+Theorem c20_noindex_without_reset_small : forall c rows vs (stored : cni),
+  fst stored = false -> (1 <= length (snd stored) <= Nat.max c 1)%nat ->
+  exists f', run_index_noreset c rows vs stored = Ok f' /\
+    Permutation (cni_abs f') (cni_abs stored ++ map snd rows ++ visits_rows vs).
+Proof. exact run_index_noreset_small. Qed.
+
+(* ... and lossy when it has more (a value left by a run in a larger pool): the reset is what makes (1) hold *)
+Theorem c20_noindex_without_reset_large_refuted :
+  exists c (stored f' : cni),
+    (length (snd stored) > Nat.max c 1)%nat /\
+    run_index_noreset c [] [VDyn []] stored = Ok f' /\
+    cni_abs stored = [1; 2] /\ cni_abs f' = [1].
+Proof. exact run_index_noreset_large_refuted. Qed.
+
+(* (2) index_insert: the shard index is thread_index % len — always in bounds for a non-empty vector, the thread's own
+   shard when thread_index < len, wrapped around (never a panic) when a value created in a smaller pool is written
+   from a larger one; the only panic is the frozen assert *)
+Theorem c20_noindex_insert_in_bounds : forall tid v (c : cni),
+  (snd c <> [] -> (cni_shard_of tid c < length (snd c))%nat) /\
+  ((tid < length (snd c))%nat -> cni_shard_of tid c = tid) /\
+  (fst c = false -> snd c <> [] ->
+     cni_insert tid v c = Ok (false, upd_nth (cni_shard_of tid c) (fun l => l ++ [v]) (snd c))) /\
+  (fst c = true -> cni_insert tid v c = Panic).
+Proof.
+  intros tid v c; exact (conj (cni_shard_in_bounds tid c) (conj (cni_shard_own tid c)
+                        (conj (cni_insert_lands tid v c) (NoIndexPools.cni_insert_frozen tid v c)))).
+Qed.
+
+(* (3) DashMap based indices: one shard count n per process (shards_count(), c_rel_index.rs:320-326, a Lazy static);
+   Default, freeze, unfreeze, writes and moves keep it, so the assert_eq! in move_index_contents cannot fire *)
+Theorem c20_dashmap_counts_constant : forall (M : Type) (e : M) n (smove : M -> M -> M * M) (from to : dmap M),
+  length (snd (dm_default e n)) = n /\
+  length (snd (dm_freeze from)) = length (snd from) /\ length (snd (dm_unfreeze from)) = length (snd from) /\
+  (fst from = false -> fst to = false -> length (snd from) = n -> length (snd to) = n ->
+     exists f' t', dm_move smove from to = Ok (f', t') /\ length (snd f') = n /\ length (snd t') = n).
+Proof. intros M e n smove from to; exact (dm_counts_constant e n smove from to). Qed.
+
+Theorem c20_dashmap_write_keeps_count : forall (M : Type) hash k (f : M -> M) (c c' : dmap M),
+  dm_write hash k f c = Ok c' -> length (snd c') = length (snd c).
+Proof. intros M hash k f c c'; exact (dm_write_keeps_count hash k f c c'). Qed.
+
+(* non-vacuity: a run in a pool of 2 over a frozen 3-shard value left by an earlier run; workers 0, 1 and (from a
+   nested larger pool) 5; one dynamic SCC with two productive rounds, one body-only visit *)
+Example c20_example_run :
+  run_index 2 [(0%nat, 0); (1%nat, 1); (5%nat, 2)] [VDyn [[(1%nat, 3)]; [(0%nat, 4); (1%nat, 5)]]; VBody]
+            (true, [[7]; [8]; [9]])
+  = Ok (true, [[0; 4]; [1; 2; 3; 5]]).
+Proof. vm_compute. reflexivity. Qed.
+
+Print Assumptions c20_noindex_no_loss. Print Assumptions c20_noindex_rows_once. Print Assumptions c20_noindex_counts_equal.
+Print Assumptions c20_noindex_scc_smaller_field. Print Assumptions c20_noindex_without_reset_small.
+Print Assumptions c20_noindex_without_reset_large_refuted. Print Assumptions c20_noindex_insert_in_bounds.
+Print Assumptions c20_dashmap_counts_constant. Print Assumptions c20_dashmap_write_keeps_count. Print Assumptions c20_example_run.
